@@ -23,7 +23,8 @@ def _modified_b64encode(src: str) -> bytes:
 def _modified_b64decode(src: bytes) -> str:
     src_b64 = src.replace(b',', b'/') + b'=' * (-len(src) % 4)
     src_utf16 = b64decode(src_b64, validate=True)
-    return src_utf16.decode('utf-16-be', 'surrogatepass')
+    # unpaired surrogates are not text, no file or terminal can take them
+    return src_utf16.decode('utf-16-be')
 
 
 def modutf7_encode(data: str) -> bytes:
